@@ -264,6 +264,10 @@ func runC18(r *mc.Run) {
 		{"L1:ok", func(p *world.QuoteParts, o *rtmr.ParseTdxCcelOpts) { withGetter(o, 1, nil) }},
 		{"L2:ok", func(p *world.QuoteParts, o *rtmr.ParseTdxCcelOpts) { withGetter(o, 2, nil) }},
 	}
+	// (appended, so that the positions of the faults above stay what the case lists below refer to)
+	vfaults = append(vfaults,
+		c18fault{"report-data-upper-half-not-zero", func(p *world.QuoteParts, o *rtmr.ParseTdxCcelOpts) { p.QEReport[352+5] = 1; p.SignQE(T.LeafKey) }},
+		c18fault{"report-data-last-byte-not-zero", func(p *world.QuoteParts, o *rtmr.ParseTdxCcelOpts) { p.QEReport[383] = 0x80; p.SignQE(T.LeafKey) }})
 	nControlsFrom := len(vfaults)
 	vfaults = append(vfaults, vcontrols...)
 	noResign["body-altered-after-signing"], noResign["body-signed-by-foreign-key"], noResign["zeroed-signature"] = true, true, true
